@@ -28,7 +28,22 @@ type c02Family struct {
 
 func be32(v int) []byte { return binary.BigEndian.AppendUint32(nil, uint32(v)) }
 
+func c02PredefinedCharset(which int) func(k int) []byte {
+	return func(k int) []byte {
+		cs := make([][]byte, k)
+		for i := range cs {
+			cs[i] = []byte{14}
+		}
+		return refcff.Assemble(&refcff.AsmSpec{Name: "Pre", CharStrings: cs, Predefined: which, Privates: []refcff.AsmPrivate{{}}})
+	}
+}
+
+var c02PredefinedCounts = []int{1, 86, 87, 88, 89, 165, 166, 167, 168, 228, 229, 230, 231, 400}
+
 var c02Families = []c02Family{
+	{"CFF: a simple font that uses the predefined ISOAdobe charset (229 names) and has k glyphs", "cff.Read", c02PredefinedCharset(1), c02PredefinedCounts},
+	{"CFF: a simple font that uses the predefined Expert charset (166 names) and has k glyphs", "cff.Read", c02PredefinedCharset(2), c02PredefinedCounts},
+	{"CFF: a simple font that uses the predefined ExpertSubset charset (87 names) and has k glyphs", "cff.Read", c02PredefinedCharset(3), c02PredefinedCounts},
 	{"kern: k subtables of the minimal length 14 whose pair arrays (64k pairs each) overlap the following subtables", "kern.Read",
 		func(k int) []byte {
 			p := min(65535, 64*k)
